@@ -40,7 +40,7 @@ func VerifC10_P_NeverCompletedWithLiveAllocation() {
 		}
 	}
 	vAssert(live && w.pc.GetNode("node-1").GetAllocation("ask-real") == real, "world: the replacement is a live real allocation after the confirmation")
-	vKnown("C10-completed-with-live-replacement", true)
 	vAssert(!app.IsCompleted(), "L3 an application with a live real allocation is never Completed")
+	vAssert(!app.IsCompleting(), "L3 an application whose replacement just became a live real allocation is not left Completing (the completing timer would complete it undisturbed)")
 	vReach("end")
 }
